@@ -85,7 +85,7 @@ def defects(draw, design):
            "read_child_wire", "write_child_wire", "write_own_inport", "write_child_outport", "child_out_to_own_in",
            "loopback_inside", "two_levels", "op_eq_update", "op_ilshift_update", "op_eq_ff", "op_imatmul_ff",
            "ff_slice", "ff_field", "op_second_eq_update", "op_second_ilshift_update", "op_second_imatmul_ff",
-           "op_second_eq_ff"]
+           "op_second_eq_ff", "deep_conflict", "deep_conflict", "deep_disjoint_legal"]
   kind = draw(st.sampled_from(kinds))
   if kind == "none": return None
   cns = sorted(design["classes"])
@@ -259,6 +259,44 @@ def defects(draw, design):
     d["expect"] = [ST]; d["nontrivial"] = True
     return d
   # operator checks: on a fresh wire
+  if kind in ("deep_conflict", "deep_disjoint_legal"):
+    # a wire of a three-level nested struct type (PRELUDE) with two drivers at different depths of one path
+    # (dw / dw.m / dw.m.p / dw.m.p.a / dw.m.p.a[0:2], or dw / dw.m / dw.m.q / dw.m.q[1:3]): a block or a net at the
+    # deeper level against a block at an ancestor level, any number of undriven levels in between
+    d["struct"] = True
+    d["raw_decl"] = ["s.dw = Wire( DeepOuter )", "s.dw_src = Wire( DeepOuter )"]
+    d["raw_groups"].append(blk(["s.dw_src @= DeepOuter()"], name="deep_src"))
+    leafy = lambda l: l.endswith(("]", ".a", ".b", ".q", ".r"))
+    rhs = lambda l: "0" if leafy(l) else l.replace("s.dw", "s.dw_src")
+    if kind == "deep_conflict":
+      chain = draw(st.sampled_from([["s.dw", "s.dw.m", "s.dw.m.p", "s.dw.m.p.a", "s.dw.m.p.a[0:2]"],
+                                    ["s.dw", "s.dw.m", "s.dw.m.q", "s.dw.m.q[1:3]"],
+                                    ["s.dw", "s.dw.m", "s.dw.m.p", "s.dw.m.p.b"]]))
+      i = draw(st.integers(0, len(chain) - 2)); j = draw(st.integers(i + 1, len(chain) - 1))
+      if draw(st.booleans()): i, j = j, i
+      l1, l2 = chain[i], chain[j]
+      if draw(st.integers(0, 2)) == 0:
+        d["raw_groups"].append([f"{l1} //= {'1' if leafy(l1) else rhs(l1)}"])
+      else:
+        d["raw_groups"].append(blk([f"{l1} @= {rhs(l1)}"], name="bad_blk1"))
+      d["raw_groups"].append(blk([f"{l2} @= {rhs(l2)}"], name="bad_blk2"))
+      d["expect"] = [MW]; d["nontrivial"] = abs(i - j) >= 2
+      return d
+    # pairwise disjoint parts of the same wire, each with its own driver: must elaborate
+    parts = draw(st.sampled_from([["s.dw.m.p.a[0:2]", "s.dw.m.p.a[2:4]", "s.dw.m.p.b", "s.dw.m.q[0:3]", "s.dw.m.q[3:6]", "s.dw.r"],
+                                  ["s.dw.m.p", "s.dw.m.q[0:1]", "s.dw.m.q[1:6]", "s.dw.r"],
+                                  ["s.dw.m.p.a", "s.dw.m.p.b", "s.dw.m.q", "s.dw.r[0:2]"],
+                                  ["s.dw.m", "s.dw.r"]]))
+    blks = {}
+    for l in parts:
+      how = draw(st.integers(0, 3))
+      if how == 0: continue                                            # left undriven
+      if how == 1: d["raw_groups"].append([f"{l} //= {'1' if leafy(l) else rhs(l)}"])
+      else: blks.setdefault(how, []).append(f"{l} @= {rhs(l)}")
+    for k, lines in blks.items():
+      d["raw_groups"].append(blk(lines, name=f"ok_blk{k}"))
+    d["expect"] = []; d["legal"] = True; d["nontrivial"] = len(blks) == 2
+    return d
   w = draw(st.integers(2, 8))
   d["raw_decl"].append(f"s.opw = Wire( Bits{w} )")
   if kind == "op_eq_update": d["raw_groups"].append(blk([f"s.opw = Bits{w}(1)"])); d["expect"] = [UB]
@@ -302,7 +340,10 @@ def apply_defect(design, defect):
   return d
 
 
-PRELUDE = "\n@bitstruct\nclass BadOpStruct:\n  fa: Bits2\n  fb: Bits3\n"
+PRELUDE = ("\n@bitstruct\nclass BadOpStruct:\n  fa: Bits2\n  fb: Bits3\n"
+           "\n@bitstruct\nclass DeepInner:\n  a: Bits4\n  b: Bits2\n"
+           "\n@bitstruct\nclass DeepMid:\n  p: DeepInner\n  q: Bits6\n"
+           "\n@bitstruct\nclass DeepOuter:\n  m: DeepMid\n  r: Bits3\n")
 
 
 def judge(case, stats=None):
@@ -337,7 +378,7 @@ def judge(case, stats=None):
         inner = [f for f in tb if "/pymtl3/" in f.filename]
         if not inner: raise
         raised = ex
-      if defect is None:
+      if defect is None or defect.get("legal"):
         if raised is not None:
           return (f"legal_design_rejected:{type(raised).__name__}", f"variant {vi}: {str(raised)[:300]}")
       else:
@@ -362,7 +403,7 @@ def near_miss(design):
 @st.composite
 def cases(draw, nvar):
   hier = draw(st.booleans())
-  design = draw(rtl_gen.designs(max_steps=5, min_depth=2 if hier else 0, child_bias=1 if hier else 0))
+  design = draw(rtl_gen.designs(max_steps=5, min_depth=2 if hier else 0, child_bias=1 if hier else 0, ifcs=draw(st.booleans())))
   defect = draw(defects(design))
   variants = [None]
   for i in range(nvar - 1):
